@@ -52,7 +52,9 @@ pub trait PS: Sync + Send + 'static {
     fn verify(pk: &Self::Pk, m: &[u8], sig: &[u8], ctx: &[u8], mode: Mode) -> bool;
     fn internal_sign(sk: &Self::Sk, m: &[u8], ctx: &[u8], rnd: [u8; 32]) -> Res<Vec<u8>>;
     fn internal_verify(pk: &Self::Pk, m: &[u8], sig: &[u8], ctx: &[u8]) -> bool;
+    /// `dudect_keygen_sign_with_rng`; only in harness builds with feature `dudect` (see HAS_DUDECT)
     fn dudect<R: CryptoRngCore>(rng: &mut R, m: &[u8]) -> Res<Vec<u8>>;
+    const HAS_DUDECT: bool = cfg!(feature = "dudect");
 
     // ---- hooks with set-specific const generics ----
     fn h_sig_decode(sig: &[u8]) -> Res<(Vec<u8>, Vec<P>, Option<Vec<P>>)>;
@@ -141,6 +143,9 @@ macro_rules! impl_set {
                 let s: [u8; fips204::$m::SIG_LEN] = sig.try_into().expect("sig length");
                 fips204::$m::_internal_verify(pk, m, &s, ctx)
             }
+            #[cfg(not(feature = "dudect"))]
+            fn dudect<R: CryptoRngCore>(_rng: &mut R, _m: &[u8]) -> Res<Vec<u8>> { Err("harness built without feature dudect") }
+            #[cfg(feature = "dudect")]
             fn dudect<R: CryptoRngCore>(rng: &mut R, m: &[u8]) -> Res<Vec<u8>> {
                 fips204::$m::dudect_keygen_sign_with_rng(rng, m).map(|s| s.to_vec())
             }
